@@ -476,8 +476,8 @@ UNIT = Unit(
 # ------------------------------------------------------------------------------------ witness search / replay
 def native(workdir):
     """bounded search on the REAL crates through parse -> reconcile -> generate (replay binary): every acyclic reference graph on
-    2..4 items x 10 reference positions (direct, Vec, array, slice, Option, HashMap value, local / nested / foreign generic
-    argument) x 4 item shapes; the emitted TypeScript is checked against an independent reading of the IR."""
+    2..4 items x 12 reference positions (direct, Vec, array, slice, Option, HashMap value, local / nested / same-name nested /
+    foreign generic argument) x 4 item shapes; the emitted TypeScript is checked against an independent reading of the IR."""
     import os
     import kf_replay
     exe = kf_replay.replay_bin()
